@@ -183,7 +183,7 @@ func judge(s *core.Stats, c *core.Case, k Case, corp *textmut.Corpus) {
 	v := Evaluate(theWorker(), &k)
 	nc := "name=" + NameClass(k.Name)
 	c.Class(nc + "/" + v.Outcome)
-	s.Counter("worker_cpu_ms", v.CPUms)
+	s.Counter("worker_cpu_ms/"+k.Entry, v.CPUms)
 	switch {
 	case v.CPUms >= 5000:
 		s.Counter("cases_with_cpu>=5s", 1)
@@ -234,7 +234,7 @@ func firstLine(s string) string {
 
 // ---------------------------------------------------------------- rapid tier
 
-const rule = "rapid over textmut: seed (repo corpus file of the entry's language, compiler-emitted WAT, hostile constant) + 1..3 stacked mutators (byte level 10%, token level, grammar-level splicing) × file name ∈ {x.wa,x.wz,x.wat,x.wa.s,x.wz.s,x.txt,\"\",x.WA,other}; every call goes through the child-process worker; oracle: outcome ∈ {ok,error}; panic / process exit (confirmed in a fresh worker) and > 20 s CPU (reproduced 3× in fresh workers) are violations keyed <entry>/panic:<innermost repo frame>, <entry>/exited:<reason>, <entry>/hang; format is driven only with block nesting ≤ 800 (its output grows as depth × lines); non-trivial = the matching scanner yields ≥ 5 tokens, the call reaches a parser (format: detected wa/wz; syntax: name does not decide; load: .wa/.wz name) and the text is not byte-identical to a repository file; distinct by hash of (entry,name,cpu,text)"
+const rule = "rapid over textmut: seed (repo corpus file of the entry's language, compiler-emitted WAT, hostile constant) + 1..3 stacked mutators (byte level 10%, token level, grammar-level splicing) × file name ∈ {x.wa,x.wz,x.wat,x.wa.s,x.wz.s,x.txt,\"\",x.WA,other}; every call goes through the child-process worker; oracle: outcome ∈ {ok,error}; panic / process exit (confirmed in a fresh worker) and > 20 s CPU (then killed 3× at 60 s CPU in fresh workers) are violations keyed <entry>/panic:<innermost repo frame>, <entry>/exited:<reason>, <entry>/hang; format is driven only with block nesting ≤ 800 (its output grows as depth × lines); non-trivial = the matching scanner yields ≥ 5 tokens, the call reaches a parser (format: detected wa/wz; syntax: name does not decide; load: .wa/.wz name) and the text is not byte-identical to a repository file; distinct by hash of (entry,name,cpu,text)"
 
 // langFor draws the language whose seeds/mutators feed an entry point.
 func langFor(t *rapid.T, entry string) textmut.Lang {
@@ -280,7 +280,7 @@ func mutTest(t *testing.T, test, entry string) {
 		opts.MaxNest = 300
 	}
 	if entry == "load" {
-		opts.MaxSeed = 24 << 10 // type checking big files is slow; the quick tier favours many cases
+		opts.MaxSeed = 8 << 10 // type checking big files is slow; the tiers favour many cases
 	}
 	s.Check(t, func(t *rapid.T, c *core.Case) {
 		l := langFor(t, entry)
@@ -289,7 +289,10 @@ func mutTest(t *testing.T, test, entry string) {
 		if entry == "native_parse" {
 			k.CPU = rapid.SampledFrom(CPUs).Draw(t, "cpu")
 		}
-		g := corp.Generate(textmut.FromRapid(t), l, opts)
+		// one rapid draw seeds a uniform stream for the many positional decisions of the
+		// mutators (rapid's own integer draws are biased towards small values, which
+		// would pin mutations to the first seeds and the beginning of the text)
+		g := corp.Generate(textmut.NewSplitMix(rapid.Uint64().Draw(t, "mutseed")), l, opts)
 		k.SetText(g.Text)
 		if outsideDomain(&k) {
 			s.Counter("rejected_by_domain/format-nesting>800", 1)
@@ -336,7 +339,8 @@ func TestCorpus(t *testing.T) {
 			name = "emitted.wat"
 		}
 		if len(sd.Text) > textmut.MaxLen {
-			continue // beyond the size for which the time bound is stated; counted below
+			s.Counter("repository_seeds_over_64KiB_not_driven_unmodified", 1)
+			continue // beyond the size for which the time bound is stated
 		}
 		var es []string
 		switch sd.Lang {
@@ -369,7 +373,20 @@ func TestCorpus(t *testing.T) {
 	names := append(append([]string{}, NameClasses...), OtherNames[0], OtherNames[4])
 	for _, sd := range textmut.Hostile() {
 		for _, e := range Entries {
-			for _, name := range names {
+			ns := names
+			if len(sd.Text) > 4<<10 {
+				// the file name only selects the dispatch; the big (expensive) constants
+				// need not be repeated under every name
+				switch e {
+				case "wat_parse":
+					ns = []string{"x.wat", ""}
+				case "native_parse":
+					ns = []string{"x.wa.s", ""}
+				default:
+					ns = []string{"x.wa", "x.wz", "x.txt"}
+				}
+			}
+			for _, name := range ns {
 				k := Case{Entry: e, Name: name, Seed: sd.Path, Kinds: []string{string(textmut.HostileConst)}}
 				k.SetText(sd.Text)
 				if e == "native_parse" {
